@@ -1,5 +1,5 @@
 (* C17 witnesses.
-   (a) Regression witnesses of the finding classes REPAIRED in /repo (1: 50ce016, 3 residual: 5934993,
+   (a) Regression witnesses of the finding classes REPAIRED in /repo (1: dff11cf, 3 residual: 5934993,
        4: 0005072, 8: 755317f, 2: b0661ca, 10: 2cb4862 + 07d36f7): on the cases that used to fail, the
        models of the repaired code return what the implementation now returns, and that is the SQL
        join.  (Historical: before the repairs the same cases were proved to be answered wrongly by the
